@@ -60,6 +60,7 @@ struct TestServer : public SocketServer
 	void serve(Socket client)
 	{
 		if (stopReturned) { std::lock_guard<std::mutex> lk(mu); lateServes++; }
+		if (client.handle() < 0) { std::lock_guard<std::mutex> lk(mu); badSockets++; }   // not a connection at all
 		String line;
 		if (client.waitInput(4.0)) line = client.readLine();
 		std::string tok(*line, line.length());
@@ -69,8 +70,7 @@ struct TestServer : public SocketServer
 			served[tok]++;
 		}
 		if (!tok.empty()) {
-			if (client.disconnected() && false) badSockets++;
-			client << String("hi ") + line + "\n";
+						client << String("hi ") + line + "\n";
 		}
 		unsigned r;
 		{ std::lock_guard<std::mutex> lk(gmu); r = jrnd(); }
@@ -80,7 +80,7 @@ struct TestServer : public SocketServer
 
 }
 
-static std::string runScenario(bool seq, bool unixSock, int nclients, const std::string& pattern, int stopMs, unsigned long long seed, bool wantTrace)
+static std::string runScenario(bool seq, bool unixSock, bool both, int nclients, const std::string& pattern, int stopMs, unsigned long long seed, bool wantTrace)
 {
 	jstate = 88172645463325252ull ^ (seed * 0x9E3779B97F4A7C15ull);
 	if (!jstate) jstate = 1;
@@ -90,7 +90,18 @@ static std::string runScenario(bool seq, bool unixSock, int nclients, const std:
 	String path;
 	int port = 0;
 	bool bound = false;
-	if (unixSock) {
+	if (both) {
+		path = String("/tmp/vc14-") + String((int)getpid()) + "-" + String((int)(seed % 100000)) + ".sock";
+		File(path).remove();
+		bound = server->bindPath(path);
+		bool b2 = false;
+		for (int k = 0; k < 40 && !b2; k++) {
+			port = 20000 + (int)((seed * 7919 + k * 131 + (unsigned)getpid() * 17) % 30000);
+			b2 = server->bind("127.0.0.1", port);
+		}
+		bound = bound && b2;
+	}
+	else if (unixSock) {
 		path = String("/tmp/vc14-") + String((int)getpid()) + "-" + String((int)(seed % 100000)) + ".sock";
 		File(path).remove();
 		bound = server->bindPath(path);
@@ -123,10 +134,11 @@ static std::string runScenario(bool seq, bool unixSock, int nclients, const std:
 			else delayUs = (int)(r % (unsigned)(stopMs * 1000 + 1));
 		}
 		else if (pattern == "mixed") { delayUs = (r & 1) ? 0 : (int)((r >> 3) % (unsigned)(stopMs * 1500 + 1)); early = ((r >> 1) % 5 == 0); }
-		cl.push_back(std::thread([k, delayUs, holdUs, early, unixSock, port, &path, &replies, &sent]() {
+		bool useUnix = both ? (k % 2 == 1) : unixSock;
+		cl.push_back(std::thread([k, delayUs, holdUs, early, useUnix, port, &path, &replies, &sent]() {
 			if (delayUs) usleep(delayUs);
 			String tok = String("c") + String(k);
-			if (unixSock) {
+			if (useUnix) {
 				LocalSocket s;
 				if (!s.connect(path)) return;
 				if (early) { s.close(); return; }
@@ -156,11 +168,12 @@ static std::string runScenario(bool seq, bool unixSock, int nclients, const std:
 	usleep(2000);
 	// copy the oracle data, then destroy the server while client threads may still be around
 	std::map<std::string, int> served;
-	int late;
+	int late, badsock;
 	{
 		std::lock_guard<std::mutex> lk(server->mu);
 		served = server->served;
 		late = server->lateServes;
+		badsock = server->badSockets;
 	}
 	delete server;
 	usleep(30000);   // a thread still using the destroyed server would be caught by ASan here
@@ -171,7 +184,7 @@ static std::string runScenario(bool seq, bool unixSock, int nclients, const std:
 		recording = false;
 		tr = gtrace;
 	}
-	if (unixSock) File(path).remove();
+	if (unixSock || both) File(path).remove();
 	// ---- oracles
 	int once = 1, repliesOk = 1, nserved = 0;
 	for (std::map<std::string, int>::iterator it = served.begin(); it != served.end(); ++it) {
@@ -193,7 +206,7 @@ static std::string runScenario(bool seq, bool unixSock, int nclients, const std:
 			repliesOk = 0;
 		}
 	}
-	std::string out = "served-exactly-once=" + str(once) + " replies=" + str(repliesOk) + " running=" + str(runningAfter ? 1 : 0) + " late=" + str(late);
+	std::string out = "served-exactly-once=" + str(once) + " replies=" + str(repliesOk) + " running=" + str(runningAfter ? 1 : 0) + " late=" + str(late) + " badsock=" + str(badsock);
 	if (!wantTrace) return out;
 	// ---- trace encoding
 	std::map<const volatile void*, int> handlerOf;   // SockClientThread* -> connection index
@@ -226,7 +239,7 @@ static std::string runScenario(bool seq, bool unixSock, int nclients, const std:
 static std::string step(const Toks& t)
 {
 	if (t[0] == "srv" && (t.size() == 7 || t.size() == 8)) {
-		return runScenario(t[1] == "seq", t[2] == "unix", (int)num(t[3]), t[4], (int)num(t[5]), (unsigned long long)num(t[6]), t.size() == 8);
+		return runScenario(t[1] == "seq", t[2] == "unix", t[2] == "both", (int)num(t[3]), t[4], (int)num(t[5]), (unsigned long long)num(t[6]), t.size() == 8);
 	}
 	return "bad-op";
 }
